@@ -156,7 +156,7 @@ func pathLength(index, numLeaves uint64) uint64 {
 	var n uint64
 	for numLeaves > 1 {
 		k := uint64(1)
-		for k<<1 < numLeaves {
+		for k <= (numLeaves-1)>>1 { // 2k < numLeaves, written so that it cannot overflow
 			k <<= 1
 		}
 		if index < k {
